@@ -193,8 +193,9 @@ def work(chunk, points=None, tier='quick', quick_slice=0):
                 return
             if n == 0:
                 with np.errstate(all='ignore'):
-                    direct = fun(np.float64(comb.x))
-                same = (complex(direct) == v)
+                    direct = np.asarray(fun(np.asarray(res['x'])))      # the same call the library makes
+                direct = complex(direct.ravel()[0 if form == 'scalar' else form[1]])
+                same = (direct == v)
                 acc.case(case, nontrivial=True, cell=cell, outcome=same)
                 if not same:
                     acc.violation('C01:%s:n=0-not-f(x)' % method, jc,
